@@ -2,7 +2,7 @@
    prime-order group), arbitrary message type, arbitrary hash H, arbitrary choice [sel] of the map
    entries used by the recovery.  The Lagrange/DKG fact comes from C13. *)
 From mathcomp Require Import all_ssreflect all_algebra.
-From V.C13 Require Import Model Proofs Props.
+From V.C13 Require Import Model Proofs.
 From V.C15 Require Import Model.
 Set Implicit Arguments. Unset Strict Implicit. Unset Printing Implicit Defensive.
 Import GRing.Theory.
@@ -265,7 +265,7 @@ have -> : rec_of m = recover_sel (fops F) (sel m) (map fst m)
                        (map (fun z => member_key (fops F) dealers z * h) (map fst m)).
   rewrite /rec_of -map_comp; congr (recover_sel _ _ _ _); apply/eq_in_map => [[id s]] /vm [sk lk [-> _]] /=.
   by rewrite (memE lk).
-rewrite /gsk gskE; apply: (@C13_dkg_any_subset_any_order F k) => //.
+rewrite /gsk gskE; apply: (@dkg_recover_sel F k) => //.
 by rewrite size_map.
 Qed.
 
